@@ -17,7 +17,9 @@ _scratch = None
 def scratch():
     global _scratch
     if _scratch is None:
-        base = os.environ.get('TMPDIR') or '/var/tmp'
+        for base in (os.environ.get('TMPDIR'), '/var/tmp', '/tmp'):
+            if base and os.path.isdir(base) and os.access(base, os.W_OK):
+                break
         _scratch = tempfile.mkdtemp(prefix='vblf-verif.', dir=base)
         atexit.register(lambda: shutil.rmtree(_scratch, ignore_errors=True))
     return _scratch
